@@ -402,7 +402,8 @@ def c07(chk):
     if chk.tier == "quick":
         runs = [(3, "small"), (2, "medium")]
     else:
-        runs = [(3, "medium"), (2, "large"), (4, "small")]
+        # generated states = sum over prefixes of |tokens| x |separators|^2 per step: (3, "six") ~ 27 M, (2, "large") ~ 15 M
+        runs = [(3, "small"), (3, "six"), (2, "large")]
     for maxlen, sepset in runs:
         info, summ = vf.run_model(f"sep_{maxlen}_{sepset}", "MC_Sep.tla", {"MaxLen": maxlen, "SepSet": sepset}, chk.outdir,
                                   workers=12 if chk.tier == "quick" else 16, env_extra={"PRIMS": prims}, timeout=3000)
